@@ -166,6 +166,9 @@ impl VM {
         }
 
         // reset some state
+        // (a previous run may have ended with an error halfway through a function call)
+        self.stack.clear();
+        self.frames.truncate(1);
         self.instructions = code.instructions;
         self.ip = 0;
         self.bp = 0;
